@@ -263,6 +263,8 @@ def any_profile(reopen_ok=False, weights=None, with_manydirs=False):
         table['readd'] = readd(reopen_ok=reopen_ok)
     if 'symcomps' in w:
         table['symcomps'] = symcomps(reopen_ok=reopen_ok)
+    if 'rrfull' in w:
+        table['rrfull'] = rrfull(reopen_ok=reopen_ok)
     alts = []
     for name, n in w.items():
         s = table[name].map(lambda p, name=name: dict(p, profile=name))
@@ -415,7 +417,8 @@ def bootlinks(cfg=None, reopen_ok=True):
     c = cfg if cfg is not None else cfg_st(joliet=st.sampled_from([3, 3, 1, None]), udf=st.sampled_from([True, True, False]))
     bootfile = add_fp(length=st.sampled_from([2748, 10000, 2048, 5000, 70000, 64, 2049]), ck=st.sampled_from([1, 0]), ns=st.sampled_from([7, 7, 3, 5]), d=st.just(0),
                       file=st.just(False))
-    other = st.lists(st.one_of(add_fp(length=SMALL_LEN, d=st.just(0)), add_dir(d=st.just(0))), min_size=0, max_size=3)
+    other = st.lists(st.one_of(add_fp(length=SMALL_LEN, d=st.just(0)), add_fp(length=st.sampled_from([7000, 10000, 20000]), d=st.just(0), file=st.just(False)), add_dir(d=st.just(0))),
+                     min_size=0, max_size=3)
     on0 = lambda o: dict(o, b=0)
     boots = st.lists(st.builds(lambda o, ld: dict(o, b=0, media=0, load=ld), add_boot, st.sampled_from([None, None, 4, 1, 8])), min_size=1, max_size=2)
     prelinks = st.lists(add_link.map(on0), min_size=0, max_size=2)
@@ -428,7 +431,9 @@ def bootlinks(cfg=None, reopen_ok=True):
     if reopen_ok:
         body_choices += [reopen]
     body = st.lists(st.one_of(*body_choices), min_size=2, max_size=12)
-    return program(c, st.builds(lambda f, o, b, p, u, m, t: [f] + o + b + p + u + m + t, bootfile, other, boots, prelinks, unlink_iso, st.one_of(*mid_choices), body))
+    # 'hideall': every name of the boot file goes, then (after a reopen) El Torito itself - the content's last reference
+    hideall = st.sampled_from([[], [], [{'k': 'rm_link', 'b': 0, 'j': 0}] * 4 + ([{'k': 'reopen'}] if reopen_ok else [{'k': 'write'}]) + [{'k': 'rm_boot'}, {'k': 'write'}]])
+    return program(c, st.builds(lambda f, o, b, p, u, m, h, t: [f] + o + b + p + u + m + h + t, bootfile, other, boots, prelinks, unlink_iso, st.one_of(*mid_choices), hideall, body))
 
 
 def reloctwins(cfg=None, reopen_ok=False):
@@ -526,6 +531,30 @@ def symcomps(cfg=None, reopen_ok=False):
         post_choices += [reopen]
     return program(c, st.builds(build, st.integers(1, 110), st.integers(10, 25), st.integers(1, 3), st.integers(0, 5), st.integers(0, 4), I, I,
                                 st.sampled_from([0, 0, 1]), st.lists(st.one_of(*post_choices), min_size=0, max_size=3)))
+
+
+def rrfull(cfg=None, reopen_ok=False):
+    """Directory records that Rock Ridge fills to the last byte: interchange level 4, ISO9660 identifiers of
+    consecutive lengths around the longest one Rock Ridge still leaves room for (165..200 bytes, 150..190 with XA),
+    Rock Ridge names of 1-6 bytes (so that the alternate name has to be split with only a few bytes, or none, left
+    in the record), files and directories."""
+    c = cfg if cfg is not None else cfg_st(level=st.just(4), rr=st.sampled_from(['1.09', '1.10', '1.12']))
+
+    def build(base, count, rrk, lead, dirs, post):
+        ops = []
+        for i in range(count):
+            k = 1 + (rrk + i) % 6
+            xl = {'iso': base + i, 'rr': k, 'jol': 5, 'udf': 7}
+            if dirs and i % 3 == 2:
+                ops.append({'k': 'add_dir', 'd': 0, 'ns': 1, 'sz': 0, 'rsz': 0, 'usz': 0, 'lead': lead, 'salt': i, 'mode': None, 'reuse': 0, 'xl': xl})
+            else:
+                ops.append({'k': 'add_fp', 'd': 0, 'ns': 1, 'len': [0, 1, 2049][i % 3], 'sz': 0, 'rsz': 0, 'usz': 0, 'lead': lead, 'salt': i, 'mode': None, 'ck': 0,
+                            'file': False, 'reuse': 0, 'xl': xl})
+        return ops + post
+    post_choices = [write, query, rm_file, add_fp(d=st.just(0), length=SMALL_LEN)]
+    if reopen_ok:
+        post_choices += [reopen]
+    return program(c, st.builds(build, st.integers(150, 192), st.integers(6, 14), st.integers(0, 5), I, st.booleans(), st.lists(st.one_of(*post_choices), min_size=0, max_size=3)))
 
 
 def _recipe(target, sizes, picks):
